@@ -742,6 +742,7 @@ fn main() {
     let rx = Arc::new(Mutex::new(rx));
     let n_files = Arc::new(AtomicU64::new(0));
     let n_valid = Arc::new(AtomicU64::new(0));
+    let n_nontrivial = Arc::new(AtomicU64::new(0));
     let n_runs = Arc::new(AtomicU64::new(0));
     let n_msgs = Arc::new(AtomicU64::new(0));
     let n_dev = Arc::new(AtomicU64::new(0));
@@ -753,6 +754,7 @@ fn main() {
 
     let mut handles = Vec::new();
     for t in 0..threads {
+        let n_nontrivial = n_nontrivial.clone();
         let (ctx, rx, n_files, n_valid, n_runs, n_msgs, n_dev, violations, classes, constraint_hits, samples, bases, dump_dir) = (
             ctx.clone(), rx.clone(), n_files.clone(), n_valid.clone(), n_runs.clone(), n_msgs.clone(), n_dev.clone(),
             violations.clone(), classes.clone(), constraint_hits.clone(), samples.clone(), bases.clone(), dump_dir.clone());
@@ -765,6 +767,7 @@ fn main() {
                 let rec: Value = match serde_json::from_str(&line) { Ok(v) => v, Err(_) => continue };
                 if rec.get("file").is_none() { continue; }
                 n_files.fetch_add(1, Ordering::Relaxed);
+                if rec["size"].as_u64().unwrap_or(0) > 0 { n_nontrivial.fetch_add(1, Ordering::Relaxed); }
                 let valid = rec["valid"].as_bool().unwrap_or(false);
                 if valid { n_valid.fetch_add(1, Ordering::Relaxed); }
                 {
@@ -802,11 +805,16 @@ fn main() {
                         }
                     }
                     if let Some(d) = &dump_dir { if k < 40 { let _ = std::fs::write(format!("{d}/file{k}_r{r}.toml"), &text); } }
-                    if k % 1499 == 7 && r == 1 {
+                    // samples: one per (valid?, has a frontend?, has a listener?) class among the richer files
+                    let has_front = rec["file"]["cs"].as_array().is_some_and(|a| a.iter().any(|c| c["fronts"].as_array().is_some_and(|f| !f.is_empty())));
+                    let has_listener = rec["file"]["ls"].as_array().is_some_and(|a| !a.is_empty());
+                    if r == 1 && has_front && rec["size"].as_u64().unwrap_or(0) >= 4 && k % 7 == 3 {
                         let mut sm = samples.lock().unwrap();
-                        if sm.len() < 3 {
-                            sm.push(json!({"abstract_file": rec["file"], "valid": valid, "violated_constraints": rec["violations"],
-                                "toml": text, "loader": match &real { Real::Rejected(e) => format!("rejected: {e}"), Real::Loaded(run) => format!("loaded, {} messages", run.nmsg), Real::Panic(s, m) => format!("panic in {s}: {m}") }}));
+                        let class = format!("{valid}/{has_listener}");
+                        if sm.len() < 4 && !sm.iter().any(|x: &Value| x["class"] == json!(class)) {
+                            sm.push(json!({"class": class, "abstract_file": rec["file"], "valid": valid, "violated_constraints": rec["violations"],
+                                "declared": rec["declared"], "toml": text,
+                                "loader": match &real { Real::Rejected(e) => format!("rejected: {e}"), Real::Loaded(run) => format!("loaded, {} messages, all accepted: {}", run.nmsg, run.rejected.is_empty()), Real::Panic(s, m) => format!("panic in {s}: {m}") }}));
                         }
                     }
                 }
@@ -903,7 +911,7 @@ fn main() {
     for v in violations.lock().unwrap().iter() { emit(v); }
     let mut all_samples = samples.lock().unwrap().clone();
     all_samples.extend(scale_samples);
-    emit(&json!({"kind":"summary","files": n_files.load(Ordering::SeqCst), "valid_files": n_valid.load(Ordering::SeqCst),
+    emit(&json!({"kind":"summary","files": n_files.load(Ordering::SeqCst), "valid_files": n_valid.load(Ordering::SeqCst), "nonempty_files": n_nontrivial.load(Ordering::SeqCst),
         "runs": n_runs.load(Ordering::SeqCst), "messages_dispatched": n_msgs.load(Ordering::SeqCst),
         "deviation_explained": n_dev.load(Ordering::SeqCst), "scale_runs": scale_runs, "scale_max_messages": scale_max_msgs,
         "classes": *classes.lock().unwrap(), "constraint_hits": *constraint_hits.lock().unwrap(), "samples": all_samples}));
